@@ -37,7 +37,7 @@ ANCHORS = [
 ]
 BUDGET = {'quick': 900, 'thorough': 8000}
 DRIFT_FACTOR = 2
-CASE_TIMEOUT = 60.0
+CASE_TIMEOUT = 30.0
 RULE = ('a case is an initial composite (nested compartments ≤ depth 4, 1–6 probe processes/steps with '
         '1–3 ports each: variable ports, glob ports `*`, nested ports, ports reaching up with `..`, '
         'steps with flow) plus a history of 1–12 updates of ≤ 3 operations each (_add/_delete/_move/'
@@ -754,7 +754,35 @@ def canon_report(r):
     return r
 
 
+_RERUN = {}
+
+
+def _settled(case, impl):
+    """A watchdog timeout of the forked worker is re-examined once in this process (forked
+    workers occasionally inherit a held lock and stall before the case even starts); a case that
+    really hangs times out again and is reported."""
+    if not (isinstance(impl, dict) and impl.get('timeout')):
+        return impl
+    key = json.dumps(case, sort_keys=True, default=str)
+    if key not in _RERUN:
+        import signal
+
+        def _alarm(signum, frame):
+            raise TimeoutError()
+        old = signal.signal(signal.SIGALRM, _alarm)
+        signal.setitimer(signal.ITIMER_REAL, CASE_TIMEOUT)
+        try:
+            _RERUN[key] = run_impl(case)
+        except BaseException as e:  # noqa
+            _RERUN[key] = {'timeout': True, 'again': type(e).__name__}
+        finally:
+            signal.setitimer(signal.ITIMER_REAL, 0)
+            signal.signal(signal.SIGALRM, old)
+    return _RERUN[key]
+
+
 def compare(case, impl, model):
+    impl = _settled(case, impl)
     io = impl.get('obs') if isinstance(impl, dict) else None
     if io is None:
         return f'implementation probe failed: {_short(impl)}'
@@ -810,6 +838,7 @@ def _short(x):
 
 
 def oracle(case, impl):
+    impl = _settled(case, impl)
     if not isinstance(impl, dict) or 'fails' not in impl:
         return [f'probe-crashed: {_short(impl)}']
     return impl['fails']
@@ -822,6 +851,7 @@ def classify(case, failure):
 
 
 def nontrivial(case, impl):
+    impl = _settled(case, impl)
     if not isinstance(impl, dict) or 'obs' not in impl:
         return False
     steps = impl['obs'].get('steps') or []
